@@ -11,14 +11,14 @@ THEOREMS = [
     "GoaktVerif.C37.remoteSpawn_exact",
     "GoaktVerif.C37.C37_partial",
     "GoaktVerif.C37.C37_refuted",
-    "GoaktVerif.C37.C37_backoff_always_lost",
+    "GoaktVerif.C37.C37_backoff_survives",
     "GoaktVerif.C37.C37_constructor_covered",
 ]
 INPKG = ["actor/zz_verif_c37.go"]
 TIMEOUT = 900
 MANIFEST = {
-    "level_text": "Kernel-checked theorems over a model of supervisor.NewSupervisor/options/Reset/SetDirectiveByType, reentrancy.New, the wire structs of actor.proto field by field, codec Encode/Decode (supervisor, passivation, reentrancy, durationpb), PID.toSerialize, wireSpawnOptions and configPID's defaulting. relocate_exact: for EVERY spawn configuration with well-formed tables and int64 durations, the configuration after encode->wire->decode->respawn equals the original with exactly three alterations: the supervisor's backoff triple is zeroed, the directive table is re-normalised (AnyError collapses it; the two constructor defaults are re-added), the reentrancy limit is clamped to 2^32-1. C37_refuted: the property as stated is false (WithExponentialBackoff is lost: SupervisorSpec has no field for it), C37_backoff_always_lost: for every configuration. C37_partial: equality on all observable accessors for every configuration whose supervisor has no backoff and constructor-shaped directives and whose reentrancy limit fits uint32; C37_constructor_covered: every supervisor built by NewSupervisor from any options without WithExponentialBackoff satisfies that guard. Tie: differential of the real codec functions and of the real relocation path (Spawn -> toSerialize -> proto Marshal/Unmarshal -> wireSpawnOptions -> Spawn inside a local actor system) against the model: in-memory dump before, wire dump, in-memory dump after; plus the field list of the wire messages.",
-    "level_note": "Partial: property refuted for backoff (finding C37-F1, needs a proto change) and for two corner families (C37-F2). Trusted/parameters: protobuf Marshal/Unmarshal and the user's dependency MarshalBinary/UnmarshalBinary (sampled by the differential); Duration.AsDuration modelled as saturating arithmetic (exact on everything Encode produces); invalid enum integers (Strategy(7), Directive(9)) are outside the model; the remote-spawn route is driven end to end over loop-back TCP (Spawn WithHostAndPort -> remoteclient.RemoteSpawn -> remoteSpawnHandler); singleton and reliable-delivery branches are not.",
+    "level_text": "Kernel-checked theorems over a model of supervisor.NewSupervisor/options/Reset/SetDirectiveByType, reentrancy.New, the wire structs of actor.proto field by field (incl. the backoff fields added by fix 1ad4e99), codec Encode/Decode (supervisor, passivation, reentrancy, durationpb), PID.toSerialize, wireSpawnOptions, the remote-spawn request assembly and configPID's defaulting. relocate_exact / remoteSpawn_exact: for EVERY spawn configuration with well-formed tables, int64 durations and a normalised backoff triple, the configuration after encode->wire->decode->respawn equals the original - strategy, retry budget, timeout, backoff triple (C37_backoff_survives), passivation, stash, role, dependencies, init timeout - with exactly two alterations: the directive table is re-normalised by the decoder (AnyError collapses it; the two constructor defaults are re-added) and the reentrancy limit is clamped to 2^32-1. C37_refuted: read over all configurations the property is still false (a supervisor emptied with Reset() gains the default directives, finding C37-F2). C37_partial: equality on all observable accessors on both routes for every configuration with a constructor-shaped directive table and a reentrancy limit within uint32; C37_constructor_covered: every supervisor built by NewSupervisor from ANY options satisfies that. Tie: differential of the real codec functions, of the real relocation path (Spawn -> toSerialize -> proto Marshal/Unmarshal -> wireSpawnOptions -> Spawn) and of the real remote-spawn route over loop-back TCP (Spawn WithHostAndPort -> remoteclient.RemoteSpawn -> remoteSpawnHandler -> Spawn) against the model: in-memory dump before, wire dump, in-memory dump after; plus the field list of the wire messages.",
+    "level_note": "Partial: refuted for two corner families (C37-F2: tables mutated after construction; reentrancy limit above 2^32-1); the backoff loss (former C37-F1) was fixed by 1ad4e99. Trusted/parameters: protobuf Marshal/Unmarshal and the user's dependency MarshalBinary/UnmarshalBinary (sampled by the differential); Duration.AsDuration modelled as saturating arithmetic (exact on everything Encode produces); invalid enum integers (Strategy(7), Directive(9)) are outside the model; singleton and reliable-delivery branches are not driven.",
     "technique": "Lean 4 proof (structural induction on option lists and association lists) over a hand-written model + model/implementation differential through the real relocation and remote-spawn paths",
 }
 TRUSTED = [
@@ -185,8 +185,8 @@ def _kv(dump):
 
 
 def classify(case, impl, why):
-    """C37-F1: only the backoff triple differs (and it was set).  C37-F2: only the directive table of a
-    supervisor mutated after construction (Reset / SetDirectiveByType) or a reentrancy limit above 2^32-1 differs."""
+    """C37-F2: only the directive table of a supervisor mutated after construction (Reset / SetDirectiveByType) or a
+    reentrancy limit above 2^32-1 differs."""
     s = _split(impl or "")
     if s is None or not why or "differs" not in why:
         return None
@@ -194,7 +194,6 @@ def classify(case, impl, why):
     diff = {k for k in set(b) | set(a) if b.get(k) != a.get(k)}
     if not diff:
         return None
-    backoff = {"sup.id", "sup.md", "sup.ra"}
     corner = set()
     if diff & {"sup.rules", "sup.any"}:
         # only a table touched after construction may change
@@ -205,10 +204,4 @@ def classify(case, impl, why):
         lim = lambda v: int(v.split(":")[1]) if ":" in v else -1
         if lim(b["re"]) > 2**32 - 1 and lim(a["re"]) == 2**32 - 1 and b["re"].split(":")[0] == a["re"].split(":")[0]:
             corner.add("re")
-    if diff <= backoff and a.get("sup.id") == "0" and a.get("sup.md") == "0" and a.get("sup.ra") == "0":
-        return "C37-F1"
-    if diff <= corner:
-        return "C37-F2"
-    if diff <= backoff | corner and a.get("sup.id") == "0":
-        return "C37-F1"
-    return None
+    return "C37-F2" if diff <= corner else None
